@@ -240,6 +240,31 @@ fn schedule_from_json(r: &serde_json::Value) -> Vec<(usize, String)> {
         .unwrap_or_default()
 }
 
+/// Always runs the lowest-numbered enabled thread (the caller first).
+struct CallerFirst;
+impl sched::Chooser for CallerFirst {
+    fn choose(&mut self, _step: usize, _enabled: &[sched::Enabled]) -> Option<usize> {
+        Some(0)
+    }
+}
+
+/// Impatient-drop probe: one execution per history in which the caller always
+/// runs first, the `caller.join` gate does not wait for the worker, and the
+/// caller's clock jumps while it is in the join. Code that really joins blocks
+/// in the kernel there (supervised); code that only waits for a bounded time
+/// gives up and returns from drop with the old worker still unfinished.
+pub fn impatient_probe(spec: &C14Spec, vios: &mut Vec<Violation>, stats: &mut SchedStats) -> Result<(), Machinery> {
+    sched::set_impatient(true);
+    let mut dfs = Dfs::replaying(vec![], 0, FaultPolicy::None);
+    // an empty forced schedule = always the first enabled transition (caller first)
+    let _ = CallerFirst;
+    dfs.forced = Some(vec![]);
+    let r = explore_with(spec, vios, stats, Instant::now() + std::time::Duration::from_secs(300), dfs);
+    sched::set_impatient(false);
+    stats.outcome_add("impatient-drop-probes");
+    r
+}
+
 /// Re-executes one recorded case.
 pub fn replay(r: &serde_json::Value) -> i32 {
     let spec = C14Spec {
